@@ -33,13 +33,13 @@ NSTEPS = 5
 
 def bounds(tier, seed):
     return dict(release=["discrete", "continuous"], column=["none", "int", "time", "lonlat"], ibmvar=[False, True], diffusion=[0.0, 2.5, 4], subgrid=[None, [2, 9, 1, 7]], advection=["EF", "RK4"],
-                grid=["explicit", "explicit-plugin-nomodule", "omitted-plain", "omitted-wildcard", "omitted-wildcard-class"], optional=["omitted", "empty", "blank"], reference=[False, True], dt=["int", "list", "iso"])
+                grid=["explicit", "explicit-plugin-nomodule", "omitted-plain", "omitted-wildcard", "omitted-wildcard-class", "omitted-wildcard-negclass"], optional=["omitted", "empty", "blank"], reference=[False, True], dt=["int", "list", "iso"])
 
 
 def cases(tier, seed):
     out = []
     k = seed
-    for rel, col, ibm, diff, grid in itertools.product(["discrete", "continuous"], ["none", "int", "time", "lonlat"], [False, True], [0.0, 2.5, 4], ["explicit", "explicit-plugin-nomodule", "omitted-plain", "omitted-wildcard", "omitted-wildcard-class"]):
+    for rel, col, ibm, diff, grid in itertools.product(["discrete", "continuous"], ["none", "int", "time", "lonlat"], [False, True], [0.0, 2.5, 4], ["explicit", "explicit-plugin-nomodule", "omitted-plain", "omitted-wildcard", "omitted-wildcard-class", "omitted-wildcard-negclass"]):
         others = list(itertools.product([None, [2, 9, 1, 7]], ["EF", "RK4"], ["omitted", "empty", "blank"], [False, True], ["int", "list", "iso"]))
         if tier == "quick":
             k += 1
@@ -85,7 +85,7 @@ def dt_spelling(kind):
 
 def forcing_name(case, d):
     # "omitted-wildcard-class": a wildcard written with a character class instead of * or ?
-    return str(d / ("single.nc" if case["grid"] == "omitted-plain" else "f_00[0-9].nc" if case["grid"] == "omitted-wildcard-class" else "f_*.nc"))
+    return str(d / ("single.nc" if case["grid"] == "omitted-plain" else "f_00[0-9].nc" if case["grid"] == "omitted-wildcard-class" else "f_00[!x].nc" if case["grid"] == "omitted-wildcard-negclass" else "f_*.nc"))
 
 
 def plugin_path(d):
